@@ -43,9 +43,9 @@ def impl_loop_order(rec, out):
 
 
 def aff_form(case, rec):
-    """the Einsum in loop-variable form for the Lean model compiler of the affine nest (Props/C04Den): every loop rank that is an
-    index variable's rank loops that variable; a loop over a tensor's own rank W (accessed as a*q + s) loops w and the variable
-    it replaces is eliminated (s = w - a*q; only when its coefficient is +-1)"""
+    """the Einsum for the Lean model compiler of the affine nest (Props/C04Den, C04Var): every loop rank that is an index variable's
+    rank loops that variable; a loop over a tensor's own rank W (accessed as c0*s + rho, c0 = +-1) loops w in place of s - the
+    terms are sent AS WRITTEN together with (s, w, c0, rho) and Lean computes the loop-variable form (C04.loopFormTerms)"""
     if len(case["eins"]) != 1 or (rec["yaml"].get("mapping") or {}).get("partitioning"):
         return None
     e = case["eins"][0]
@@ -55,7 +55,7 @@ def aff_form(case, rec):
     if lo is None:
         return None
     ivars = gens.ein_vars(e)
-    subst = {}
+    own = None
     loopvars = []
     for R in lo:
         if R.lower() in ivars:
@@ -66,21 +66,14 @@ def aff_form(case, rec):
             for f in t["factors"]:
                 if f[0] == "t" and R in case["decl"][f[1]]:
                     acc = f[2][case["decl"][f[1]].index(R)]
-        if acc is None:
+        if acc is None or own is not None:
             return None
         missing = [(c, v) for c, v in acc if v.upper() not in lo]
         if len(missing) != 1 or missing[0][0] not in (1, -1):
             return None
         c0, v0 = missing[0]
-        # v0 = c0 * (w - sum others)
-        subst[v0] = [(c0, R.lower())] + [(-c0 * c, v) for c, v in acc if v != v0]
+        own = {"s": v0, "w": R.lower(), "c0": c0, "rho": {"terms": [[c, v] for c, v in acc if v != v0], "const": 0}, "Se": case["ext"][v0.upper()]}
         loopvars.append(R.lower())
-    def sub(idx):
-        out = {}
-        for c, v in idx:
-            for c2, v2 in (subst[v] if v in subst else [(1, v)]):
-                out[v2] = out.get(v2, 0) + c * c2
-        return [[c, v] for v, c in out.items() if c != 0]
     terms = []
     for t in e["terms"]:
         scal, tensors = 1, []
@@ -88,18 +81,21 @@ def aff_form(case, rec):
             if f[0] == "s":
                 scal *= case["env"][f[1]]
             else:
-                tensors.append({"name": f[1], "ranks": list(case["decl"][f[1]]), "idx": [{"terms": sub(i), "const": 0} for i in f[2]]})
+                tensors.append({"name": f[1], "ranks": list(case["decl"][f[1]]), "idx": [{"terms": [[c, v] for c, v in i], "const": 0} for i in f[2]]})
         terms.append({"scal": scal, "tensors": tensors})
     out_vars = []
     for i in e["oidx"]:
-        si = sub(i)
-        if len(si) != 1 or si[0][0] != 1:
+        if len(i) != 1 or i[0][0] != 1 or (own and i[0][1] == own["s"]):
             return None
-        out_vars.append(si[0][1])
-    if any(v not in loopvars for t in terms for x in t["tensors"] for i in x["idx"] for _, v in i["terms"]):
+        out_vars.append(i[0][1])
+    allowed = set(loopvars) | ({own["s"]} if own else set())
+    if any(v not in allowed for t in terms for x in t["tensors"] for i in x["idx"] for _, v in i["terms"]):
         return None
-    return {"op": "nest_aff", "loop": loopvars, "exts": [case["ext"][v.upper()] for v in loopvars], "out_name": e["out"], "out_vars": out_vars,
-            "terms": terms, "tree": rec["tree"]}
+    q = {"op": "nest_aff", "loop": loopvars, "exts": [case["ext"][v.upper()] for v in loopvars], "out_name": e["out"], "out_vars": out_vars,
+         "terms": terms, "tree": rec["tree"]}
+    if own:
+        q["own"] = own
+    return q
 
 
 def lean_aff_request(case, rec, ex):
